@@ -114,26 +114,30 @@ def _dense(p, x):
   return y
 
 
-def lstm_step(p, carry, x):
-  """i=s(Wii x+Whi h+bhi) f=s(..) g=tanh(..) o=s(..); c'=f*c+i*g; h'=o*tanh(c')."""
+def soft_sign(z):
+  return z / (1.0 + np.abs(z))
+
+
+def lstm_step(p, carry, x, act=np.tanh):
+  """i=s(Wii x+Whi h+bhi) f=s(..) g=act(..) o=s(..); c'=f*c+i*g; h'=o*act(c')  (act = activation_fn, tanh by default)."""
   c, h = f64(carry[0]), f64(carry[1])
   i = sigmoid(_dense(p['ii'], x) + _dense(p['hi'], h))
   f = sigmoid(_dense(p['if'], x) + _dense(p['hf'], h))
-  g = np.tanh(_dense(p['ig'], x) + _dense(p['hg'], h))
+  g = act(_dense(p['ig'], x) + _dense(p['hg'], h))
   o = sigmoid(_dense(p['io'], x) + _dense(p['ho'], h))
   c2 = f * c + i * g
-  h2 = o * np.tanh(c2)
+  h2 = o * act(c2)
   return (c2, h2), h2
 
 
-def fused_lstm_step(p, carry, x):
+def fused_lstm_step(p, carry, x, act=np.tanh):
   """Same recurrence with the four gates stored side by side (i, f, g, o) in dense_i / dense_h (NNX OptimizedLSTMCell)."""
   c, h = f64(carry[0]), f64(carry[1])
   y = _dense(p['dense_i'], x) + _dense(p['dense_h'], h)
   n = y.shape[-1] // 4
   i, f, g, o = (y[..., k * n:(k + 1) * n] for k in range(4))
-  c2 = sigmoid(f) * c + sigmoid(i) * np.tanh(g)
-  h2 = sigmoid(o) * np.tanh(c2)
+  c2 = sigmoid(f) * c + sigmoid(i) * act(g)
+  h2 = sigmoid(o) * act(c2)
   return (c2, h2), h2
 
 
